@@ -11,15 +11,40 @@ m = ml.Molecule(name="g")
 for i, el in enumerate(["C", "O", "H"]):
     m.add_atom(ml.Atom(el, label=f"{el}{i}"), [1.25 * (i + 1), -1234.5 * i, 12345.0 + i], 0.0)
 m.connect(0, 1)
-if w.get("op") == "units":
+if w.get("op") == "xyz-multi":
+    frames = [("O", "H", "H"), ("S", "H", "H"), ("H", "O", "H"), ("*", "C", "O"), ("C", "O", "O")]
+    txt = ""
+    for els in frames:
+        g = ml.Molecule(n_atoms=3)
+        for a_, e_ in zip(g.atoms, els):
+            if e_ == "*":
+                a_.atype = ml.AtomType.Dummy
+                a_.element = ml.Element.Unknown
+            else:
+                a_.element = ml.Element[e_]
+        g.coords = np.arange(9, dtype=float).reshape(3, 3)
+        txt += g.dumps_xyz()
+    rs = ml.Molecule.loads_all_xyz(txt)
+    got = [tuple("*" if a_.atype == ml.AtomType.Dummy else a_.element.symbol for a_ in r.atoms) for r in rs]
+    if got != frames:
+        bad.append(f"multi-molecule xyz text read back with elements {got}, written {frames}")
+elif w.get("op") == "units":
     fmt = w.get("format", "xyz")
     units = [w["unit"]] if w.get("unit") in APU else list(APU)
     txt = getattr(m, f"dumps_{fmt}")()
+    from io import StringIO
     for u in units:
-        r = getattr(ml.Molecule, f"loads_{fmt}")(txt, source_units=u)
-        want = m.coords * APU[u]
-        if not np.allclose(r.coords, want, rtol=1e-4, atol=1e-9):
-            bad.append(f"{fmt} file declared in {u}: {m.coords[0][0]} {u} read as {r.coords[0][0]:.6g} Angstrom, expected {want[0][0]:.6g}")
+        for entry in ("loads", "load", "loads_all", "load_all"):
+            arg = txt if entry.startswith("loads") else StringIO(txt)
+            try:
+                r = getattr(ml.Molecule, f"{entry}_{fmt}")(arg, source_units=u)
+            except BaseException as ex:
+                bad.append(f"Molecule.{entry}_{fmt}(source_units={u!r}) raised {type(ex).__name__}")
+                continue
+            r = list(r)[0] if entry.endswith("_all") else r
+            want = m.coords * APU[u]
+            if not np.allclose(r.coords, want, rtol=1e-4, atol=1e-9):
+                bad.append(f"Molecule.{entry}_{fmt}: file declared in {u}: {m.coords[0][0]} {u} read as {r.coords[0][0]:.6g} Angstrom, expected {want[0][0]:.6g}")
 else:
     for cls in (ml.Molecule, ml.CartesianGeometry):
         src = cls(m) if cls is ml.Molecule else ml.CartesianGeometry(m)
